@@ -420,4 +420,26 @@ def xmlReadAttr : Str → Option (Str × Str)
 /-- the content of an element that holds only character data, up to its end tag -/
 def xmlReadContent (s : Str) : Option (Str × Str) := xmlReadText false 0 none s
 
+/-! #### `serialize(format="xml", encoding=…)`: characters the requested encoding lacks
+
+`XMLGenerator._write` encodes with `errors="xmlcharrefreplace"`: after `escape` / `quoteattr`, a character the encoding
+cannot spell is written `&#N;` (decimal).  `enc c` = "the encoding has `c`" (every encoding has ASCII). -/
+
+/-- `'%d' % n` -/
+def natDigits (n : Nat) : Str :=
+  if h : n < 10 then [hexDigit false n] else natDigits (n / 10) ++ [hexDigit false (n % 10)]
+termination_by n
+decreasing_by omega
+
+def xmlCharRef (c : Char) : Str := '&' :: '#' :: (natDigits c.toNat ++ [';'])
+
+/-- character data under an encoding -/
+def xmlTextCharEnc (enc : Char → Bool) (c : Char) : Str :=
+  if enc c || c.toNat < 128 then xmlTextChar c else xmlCharRef c
+
+def xmlWriteTextEnc (enc : Char → Bool) (s : Str) : Str := escAll (xmlTextCharEnc enc) s
+
+def encAscii (c : Char) : Bool := c.toNat < 128
+def encLatin1 (c : Char) : Bool := c.toNat < 256
+
 end RV.C16
